@@ -944,7 +944,7 @@ def campaign(ctx):
     cases = corpus_cases()
     have = {c["id"] for c in cases}
     cases += [c for c in witness_cases() if c["id"] not in have]
-    n = ctx.scale(180, 2500)
+    n = ctx.scale(160, 2500)
     for i in range(n):
         cases.append(random_case(rng, f"r{i}"))
     nworkers = 8 if not ctx.thorough else 12
